@@ -45,6 +45,8 @@ def main():
     ap.add_argument("--suite", action="store_true", help="also run the repository test-suite on the mutant")
     ap.add_argument("--tier", default="quick")
     ap.add_argument("--props", help="comma list overriding the meta")
+    ap.add_argument("--seed", help="VERIF_SEED for the checks (seed-robustness sweeps)")
+    ap.add_argument("--record", default="results.json", help="file under mutants/ receiving the verdicts")
     a = ap.parse_args()
     rows = []
     for name, patch, meta in collect(a.names):
@@ -66,6 +68,8 @@ def main():
             for pid in props:
                 t0 = time.time()
                 env = {**os.environ, "VERIF_REPO": tmp, "VERIF_NO_EVIDENCE": "1"}
+                if a.seed:
+                    env["VERIF_SEED"] = a.seed
                 c = subprocess.run([os.path.join(VERIF, "check"), pid, a.tier], capture_output=True, text=True, env=env)
                 sigs = re.findall(r"violation sig=(\S+)", c.stdout)
                 res.append(f"{pid}:exit{c.returncode}({time.time() - t0:.0f}s)" + (" " + ";".join(sigs[:3]) if sigs else ""))
@@ -77,19 +81,20 @@ def main():
         finally:
             shutil.rmtree(tmp, ignore_errors=True)
     with open(os.path.join(VERIF, "mutants", "RESULTS.md"), "a") as fh:
-        fh.write(f"\n## run {time.strftime('%Y-%m-%d %H:%M')} tier={a.tier} (repo {subprocess.run(['git','-C',REPO,'log','-1','--format=%h'],capture_output=True,text=True).stdout.strip()})\n\n")
+        fh.write(f"\n## run {time.strftime('%Y-%m-%d %H:%M')} tier={a.tier} seed={a.seed or 1} (repo {subprocess.run(['git','-C',REPO,'log','-1','--format=%h'],capture_output=True,text=True).stdout.strip()})\n\n")
         fh.write("| mutant | checks | verdict | repo suite | detail |\n|---|---|---|---|---|\n")
         for r in rows:
             fh.write("| " + " | ".join(str(x).replace("|", "/") for x in r) + " |\n")
     # machine-readable, merged over runs (latest verdict per mutant)
-    jp = os.path.join(VERIF, "mutants", "results.json")
+    jp = os.path.join(VERIF, "mutants", a.record)
     db = json.load(open(jp)) if os.path.exists(jp) else {}
     for r in rows:
         note = ""
         for n2, p2, m2 in collect([]):
             if n2 == r[0]:
                 note = m2.get("note") or m2.get("summary") or ""
-        db[r[0]] = {"checks": r[1], "verdict": r[2], "detail": r[4], "note": note, "tier": a.tier}
+        db[r[0]] = {"checks": r[1], "verdict": r[2], "detail": r[4], "note": note, "tier": a.tier,
+                    "seed": a.seed or os.environ.get("VERIF_SEED", "1")}
     json.dump(db, open(jp, "w"), indent=1, sort_keys=True)
     missed = [r for r in rows if r[2] != "CAUGHT"]
     print(f"{len(rows) - len(missed)}/{len(rows)} caught")
